@@ -191,12 +191,41 @@ func ClosureFn(v ssa.Value) *ssa.Function {
 		return f
 	case *ssa.MakeClosure:
 		if fn, ok := f.Fn.(*ssa.Function); ok {
-			return fn
+			return BoundTarget(fn)
 		}
 	case *ssa.ChangeType:
 		return ClosureFn(f.X)
 	}
 	return nil
+}
+
+// BoundTarget: for the synthetic wrapper of a method value (x.m used as a function) the method itself; otherwise fn.
+// The method's parameters are the receiver followed by the wrapper's parameters.
+func BoundTarget(fn *ssa.Function) *ssa.Function {
+	if fn == nil || !strings.HasPrefix(fn.Synthetic, "bound method wrapper") {
+		return fn
+	}
+	var target *ssa.Function
+	AllInstrs(fn, func(in ssa.Instruction) {
+		if cc := CallOf(in); cc != nil {
+			if cal := StaticCallee(cc); cal != nil {
+				target = cal
+			}
+		}
+	})
+	if target != nil {
+		return target
+	}
+	return fn
+}
+
+// HandlerArg returns the parameter of a registered handler that carries the message: the last one (a function literal has
+// only that parameter, a method used as a handler has its receiver first).
+func HandlerArg(fn *ssa.Function) *ssa.Parameter {
+	if fn == nil || len(fn.Params) == 0 {
+		return nil
+	}
+	return fn.Params[len(fn.Params)-1]
 }
 
 // CallOf returns the CallCommon of a call-like instruction.
@@ -416,6 +445,36 @@ func StructLit(v ssa.Value) (map[string]ssa.Value, bool) {
 		}
 	case *ssa.Alloc:
 		al = x
+	}
+	if call, isCall := v.(*ssa.Call); isCall && al == nil {
+		// a helper of the module whose every return is one struct literal: read the literal, parameters replaced by the arguments
+		cal := StaticCallee(&call.Call)
+		if cal == nil || len(cal.Blocks) == 0 || cal.Pkg == nil || call.Parent() == nil || cal.Pkg != call.Parent().Pkg {
+			return nil, false
+		}
+		var lit map[string]ssa.Value
+		n := 0
+		AllInstrs(cal, func(in ssa.Instruction) {
+			if r, isR := in.(*ssa.Return); isR && len(r.Results) == 1 {
+				n++
+				if l, ok := StructLit(r.Results[0]); ok {
+					lit = l
+				}
+			}
+		})
+		if n != 1 || lit == nil {
+			return nil, false
+		}
+		for k, val := range lit {
+			if prm, isP := val.(*ssa.Parameter); isP {
+				for i, q := range cal.Params {
+					if q == prm && i < len(call.Call.Args) {
+						lit[k] = call.Call.Args[i]
+					}
+				}
+			}
+		}
+		return lit, true
 	}
 	if al == nil {
 		return nil, false
